@@ -277,7 +277,9 @@ impl Cursor<'_> {
     }
 
     fn ident(&mut self) -> Result<TokenKind> {
-        let ident_start = self.abs_pos() - 1;
+        // Start of the current token. Do not assume that only one (ASCII) character was consumed,
+        // as this is also called as a fallback for failed hex literals
+        let ident_start = self.abs_pos() - self.pos_in_token();
         self.take_while(is_id);
         let ident = self
             .get_range(ident_start..self.abs_pos())
